@@ -36,6 +36,7 @@ class Facts:
                   self.conds + list(conds), self.dims)
         f.pos_terms = set(self.pos_terms)
         f.lower = dict(self.lower)
+        f.pos_preds = list(getattr(self, "pos_preds", ()))
         f.upper = dict(getattr(self, "upper", {}))
         f.int_apps = dict(self.int_apps)
         return f
@@ -161,6 +162,9 @@ def sign_poly(p, F):
     p = P(p)
     if p.key in F.pos_terms:
         return "+"
+    for pred in getattr(F, "pos_preds", ()):
+        if pred(p):
+            return "+"
     tot = "0"
     for m, c in p.terms:
         s = "+" if c > 0 else "-"
@@ -372,6 +376,49 @@ def merge_sums(p):
     return bound, k, body
 
 
+def strict_sign(q, F, hyps, depth=0):
+    """'+' / '-' / None for a polynomial, using sign analysis, z3, and the summand rule"""
+    sg = sign_poly(q, F)
+    if sg in ("+", "-"):
+        return sg
+    for s_, goal in (("+", T.cmp_cond("<", ZERO, q)), ("-", T.cmp_cond("<", q, ZERO))):
+        st, _ = prove(goal, F, hyps, timeout_ms=4000)
+        if st == "proved":
+            return s_
+    ms = merge_sums(q)
+    if ms is not None and sign_poly(ms[0], F) == "+" and depth < 2:
+        bound, k, body = ms
+        h2 = list(hyps) + [T.cmp_cond("<=", ZERO, k), T.cmp_cond("<", k, bound)]
+        return strict_sign(body, F, h2, depth + 1)
+    return None
+
+
+def factor_sign(p, F, hyps):
+    """sign of p = c * Π atoms^k * q from the signs of its factors"""
+    if not p.terms:
+        return None
+    c, m, q = T.poly_content(p)
+    neg = c < 0
+    for a, pw in m:
+        if a.kind == "rcp":
+            sg = strict_sign(a.args[0], F, hyps)
+        else:
+            sg = sign_atom(a, F)
+            if sg not in ("+", "-"):
+                sg = strict_sign(Poly.atom(a), F, hyps)
+        if sg not in ("+", "-"):
+            return None
+        if sg == "-" and pw % 2:
+            neg = not neg
+    if not (q == ONE):
+        sg = strict_sign(q, F, hyps)
+        if sg is None:
+            return None
+        if sg == "-":
+            neg = not neg
+    return "-" if neg else "+"
+
+
 def prove_side(kind, what, F, hyps=()):
     """discharge a definedness side condition"""
     if kind in ("pos", "nonzero"):
@@ -384,6 +431,9 @@ def prove_side(kind, what, F, hyps=()):
         st, info = prove(goal, F, hyps)
         if st == "proved":
             return st, info
+        sg2 = factor_sign(p, F, hyps)
+        if sg2 == "+" or (kind == "nonzero" and sg2 == "-"):
+            return "proved", {"backend": "z3(factors)"}
         ms = merge_sums(p)
         if ms is not None and sign_poly(ms[0], F) == "+":
             bound, k, body = ms
